@@ -397,6 +397,12 @@ ADJACENCY = [
     "f -a", "f - a", "f (a) -b", "a -b", "a - b", "a-b", "a ==b", "f ==b", "f (==b)", "f !b", "f (!b)", "f +b", "f (+b)",
     # a binary expression whose left-most operand starts with a sign, as an (unaliased) function argument
     "f ((-a) + b)", "f ((-a) + b) c", "f c ((-a) * b)", "f ((+a) - b)", "f ((==a) && b)", "f x:((-a) + b) c", "f ((-a) + b > 0)", "f (((-a) + b) * c)",
+    # lambdas at every position (model since this round; the restricted ones were repaired by commit 95d15ad)
+    "func x -> x", "func x y -> x + y", "func -> 1", "func x k:1 -> x + k", "func k:1 w:(a + b) -> k", "func k:(g y) -> k", "func k:(func y -> y) -> k", "func k:(x = a) -> k",
+    "func k:-1 w:a..b -> k", "func k:(-a) -> k", "func k:[1, 2] w:{a = 1} -> k", "case [a => (func y -> y)]", "case [(func y -> y) => a]", "func x -> (func y -> (func z -> x + y + z))",
+    "{f = func x -> x, g = (func y -> y)}", "[func x -> x, func y -> y + 1]", "(func x -> x | f)", "a + (func x -> x)", "(func x -> x) + a", "-(func x -> x)", "(func x -> x)..a",
+    "f k:(func x -> x) a", "f (func x -> x) (func y -> y)", "(al = func x -> x) + a", "{al = func x -> f x y}", "func x -> f x | g", "func x -> (f x | g)", "func x -> {a = x, b = (func y -> y)}",
+    "func x -> case [x => (func y -> y)]", "func x -> x..y", "func x -> -x", "func x -> (y = x) + 1", "func `a b` `let` -> `a b`", "func x -> s\"{x}\"",
     # positions repaired by commits 95d15ad / 2a611aa / 1b7b9df: aliased operand, bound, callee, named value; parameter before `..`
     "a + (x = b)", "(x = a) + b", "(x = a) ** (y = b)", "-(x = a)", "!(x = a)", "(x = a)..b", "a..(x = b)", "(x = a)..", "..(x = a)", "(x = f) a", "(x = f a) b",
     "f n1:(x = a) b", "f n1:(x = a + b) c", "f (x = a)", "f x = a", "f (x = a) (y = b)", "f (x = a + b) c", "a + (x = b + c)", "a * (x = (b + c))", "(x = -a) + b",
